@@ -72,9 +72,40 @@ def run(tier, seed, rng):
     for gid in range(ng):
         g = gen.Gen(rng, dict(defaults=True, regex=(gid % 5 == 0), move=(gid % 3 == 0)))
         table = g.make_table(rng.choice([2, 3]))
+        # user-supplied defaults that hold mutable objects: lists of packets, lists of integers
+        for c, pc in table.items():
+            for fd in pc['fields']:
+                b = fd['body']
+                if b[0] == 'seq' and b[5] is None and rng.random() < 0.6:
+                    if b[1][0] == 'refpkt':
+                        fd['body'] = b[:5] + ([('pkt', b[1][1], {}) for _ in range(rng.randint(1, 2))],) + b[6:]
+                    elif b[1][0] == 'leaf' and b[1][1][0] == 'int':
+                        fd['body'] = b[:5] + ([rng.randrange(3) for _ in range(rng.randint(1, 2))],) + b[6:]
         G = pktcases.Group(table, gid)
         vg = gen.ValGen(rng, table)
         hs = histories(rng, table, vg, 6 if tier == 'quick' else 12)
+        # two default-constructed packets of every class, then a mutation deep inside the first one
+        for c, pc in table.items():
+            h = [['new', 'p0', decl.cname(c), pktcases.jvalue(('pkt', c, {}))], ['new', 'p1', decl.cname(c), pktcases.jvalue(('pkt', c, {}))]]
+            for i, fd in enumerate(pc['fields']):
+                b = fd['body']
+                if b[0] == 'seq' and isinstance(b[5], list) and b[5]:
+                    if isinstance(b[5][0], tuple):
+                        sub = table[b[5][0][1]]
+                        for j, sfd in enumerate(sub['fields']):
+                            if sfd['body'][0] == 'elem' and sfd['body'][1][0] == 'leaf' and sfd['body'][1][1][0] == 'int':
+                                h.append(['set', 'p0', [f"f{i}", 0, f"f{j}"], 1])
+                                break
+                    else:
+                        h.append(['set', 'p0', [f"f{i}", 0], 2])
+                elif b[0] == 'elem' and b[1][0] == 'refpkt':
+                    sub = table[b[1][1]]
+                    for j, sfd in enumerate(sub['fields']):
+                        if sfd['body'][0] == 'elem' and sfd['body'][1][0] == 'leaf' and sfd['body'][1][1][0] == 'int':
+                            h.append(['set', 'p0', [f"f{i}", f"f{j}"], 1])
+                            break
+            h.append(['pack', 'p1'])
+            hs.append(h)
         # histories with parses: new packet, parse of its own bytes into another slot, mutation of one, observation of the other
         c0 = sorted(table)[-1]
         v0 = vg.try_value(c0)
